@@ -33,8 +33,8 @@ import (
 
 var c39Alphabet = []string{
 	"<", "</", ">", "/>", "a", "script", "title", "textarea", "plaintext",
-	"<script>", "</script>", "![CDATA[", "]]>", "!--", "--", "-->", "--!>",
-	"!DOCTYPE", "?", "=", "\"", "'", " ", "\n", "\r", "&", "&amp", "#", ";",
+	"<script>", "</script>", "<![CDATA[", "<![CDA", "]]>", "<!--", "--", "-->", "--!>",
+	"<!DOCTYPE", "<!doc", "<?", "!", "-", "=", "\"", " ", "\n", "\r", "&", "&amp", ";",
 	"\x00", "\xff", "é", "SCRIPT",
 }
 
@@ -112,6 +112,11 @@ type c39Variant struct {
 	eofData   bool
 	callToken bool
 	maxBuf    int
+	// smallBuf builds the Tokenizer white-box with a 4-byte initial buffer
+	// instead of NewTokenizer's 4096 bytes (context "" only), so that the
+	// buffer compaction / growth path of readByte and its span adjustments run
+	// on short inputs too.
+	smallBuf bool
 }
 
 func (v c39Variant) class() string {
@@ -126,12 +131,20 @@ func (v c39Variant) class() string {
 	if v.callToken {
 		s += ",Token()"
 	}
+	if v.smallBuf {
+		s += ",4-byte-buffer"
+	}
 	return s
 }
 
 func c39Tokenize(in []byte, v c39Variant) c39Run {
 	rd := &c39Reader{b: in, k: v.chunk, eofWithData: v.eofData}
-	z := NewTokenizerFragment(rd, v.ctx)
+	var z *Tokenizer
+	if v.smallBuf && v.ctx == "" {
+		z = &Tokenizer{r: rd, buf: make([]byte, 0, 4), attrNames: make(map[string]bool)}
+	} else {
+		z = NewTokenizerFragment(rd, v.ctx)
+	}
 	z.AllowCDATA(v.cdata)
 	if v.maxBuf > 0 {
 		z.SetMaxBuf(v.maxBuf)
@@ -403,7 +416,9 @@ func c39CheckInput(w *vx.W, in []byte, ctxs []string, full bool) {
 				{ctx: ctx, cdata: cdata, chunk: 3},
 			}
 			if !full {
-				variants = variants[:1]
+				variants = []c39Variant{{ctx: ctx, cdata: cdata, callToken: true, smallBuf: true}}
+			} else if ctx == "" {
+				variants = append(variants, c39Variant{ctx: ctx, cdata: cdata, smallBuf: true})
 			}
 			for _, v := range variants {
 				run := c39Tokenize(in, v)
@@ -430,10 +445,11 @@ func c39CheckMaxBuf(w *vx.W, in []byte, n int) {
 		longest = max(longest, len(t.raw))
 	}
 	longest = max(longest, len(ref.errRaw))
+	exceeded := false
 	for _, v := range []c39Variant{
 		{maxBuf: n},
-		{maxBuf: n, chunk: 1, callToken: true},
-		{maxBuf: n, eofData: true},
+		{maxBuf: n, chunk: 1, callToken: true, smallBuf: true},
+		{maxBuf: n, eofData: true, smallBuf: true},
 	} {
 		cfg := fmt.Sprintf("SetMaxBuf(%d) %s", n, v.class())
 		show := in
@@ -451,7 +467,7 @@ func c39CheckMaxBuf(w *vx.W, in []byte, n int) {
 		}
 		for _, t := range run.toks {
 			if len(t.raw) > n {
-				w.Failf("C39/maxbuf/token-longer-than-limit", "input %q (%s): %v token with %d raw bytes was returned", show, cfg, t.tt, len(t.raw))
+				w.Failf("C39/maxbuf/token-longer-than-limit:"+t.tt.String(), "input %q (%s): %v token with %d raw bytes (%q) was returned", show, cfg, t.tt, len(t.raw), trunc39(t.raw))
 				return
 			}
 		}
@@ -459,7 +475,7 @@ func c39CheckMaxBuf(w *vx.W, in []byte, n int) {
 			w.Failf("C39/maxbuf/error-token-longer-than-limit", "input %q (%s): the ErrorToken holds %d raw bytes", show, cfg, len(run.errRaw))
 			return
 		}
-		if lim := max(4096, 4*n); run.maxCap > lim {
+		if lim := max(4096, 4*n); run.maxCap > lim && !(v.smallBuf && run.maxCap <= 4*n+8) {
 			w.Failf("C39/maxbuf/buffer-grew-beyond-limit", "input of %d bytes %q (%s): internal buffer capacity reached %d (> max(4096, 4n) = %d)", len(in), show, cfg, run.maxCap, lim)
 			return
 		}
@@ -474,28 +490,20 @@ func c39CheckMaxBuf(w *vx.W, in []byte, n int) {
 			}
 			w.Outcome("maxbuf: finished (all tokens fit)")
 		} else {
-			// The limit can only cut the token being scanned when it is hit: all
-			// earlier tokens are those of the unlimited run, and the last one
-			// starts like the unlimited run's token at that position.
+			// The error is sticky, so at most one more token (a cut-off one) is
+			// returned once the limit is hit: all tokens but the last must be
+			// those of the unlimited run.
 			k := len(run.toks)
-			ok := k <= len(ref.toks)+1
-			if ok && k > 0 {
-				ok = c39SameToks(run.toks[:k-1], ref.toks[:min(k-1, len(ref.toks))])
-				if ok {
-					full := ref.errRaw
-					if k-1 < len(ref.toks) {
-						full = ref.toks[k-1].raw
-					}
-					ok = strings.HasPrefix(full, run.toks[k-1].raw)
-				}
-			}
-			if !ok {
-				w.Failf("C39/maxbuf/tokens-before-error-differ-from-unlimited", "input %q (%s): tokens %s do not follow the unlimited run %s", show, cfg, trunc39(c39Show(run.toks)), trunc39(c39Show(ref.toks)))
+			if k > 0 && (k-1 > len(ref.toks) || !c39SameToks(run.toks[:k-1], ref.toks[:k-1])) {
+				w.Failf("C39/maxbuf/tokens-before-error-differ-from-unlimited", "input %q (%s): tokens %s (all but the last) do not follow the unlimited run %s", show, cfg, trunc39(c39Show(run.toks)), trunc39(c39Show(ref.toks)))
 				return
 			}
 			w.Outcome("maxbuf: ErrBufferExceeded")
-			w.Nontrivial()
+			exceeded = true
 		}
+	}
+	if exceeded {
+		w.Nontrivial()
 	}
 	if longest > n {
 		w.Outcome("maxbuf: unlimited run has a token longer than n")
@@ -505,26 +513,22 @@ func c39CheckMaxBuf(w *vx.W, in []byte, n int) {
 func TestVerif_C39(t *testing.T) {
 	vx.Run(t, "C39", func(c *vx.Ctx) {
 		depth := vx.Pick(c, 4, 5)
-		c.Rule(fmt.Sprintf("soup: every concatenation of <= %d fragments of %q. Inputs of <= 3 fragments are tokenized with NewTokenizerFragment contexts {\"\", script, title, textarea, plaintext} x AllowCDATA off/on (on only if the input contains \"<!\") x readers {all-at-once, all-at-once with EOF alongside data + Token() twice per token, 1 byte per Read + Token(), 3 bytes per Read}; longer inputs with context \"\" x AllowCDATA off/on x readers {all-at-once, 1 byte per Read + Token()}. "+
+		c.Rule(fmt.Sprintf("soup: every concatenation of <= %d fragments of %q. Inputs of <= 3 fragments are tokenized with NewTokenizerFragment contexts {\"\", script, title, textarea, plaintext} x AllowCDATA off/on (on only if the input contains \"<!\") x readers {all-at-once, all-at-once with EOF alongside data + Token() twice per token, 1 byte per Read + Token(), 3 bytes per Read}; longer inputs with context \"\" x AllowCDATA off/on x readers {all-at-once, all-at-once into a white-box 4-byte initial buffer + Token()}. "+
 			"attrs: opener in %q + every sequence of <= %d fragments of %q + tail in %q (reaches quoted/unquoted attribute values), context \"\", same reader rule. "+
-			"maxbuf: every soup input of <= %d fragments and every attrs input of <= 3 fragments with SetMaxBuf(n), n in {1,2,3,4,7,16}, readers {all, 1 byte + Token(), EOF alongside data}; maxbuf-long: <= %d soup fragments with a 9000/20000-byte filler (x…, spaces, '-', \"<a \" repeated) inserted at every position, n in {16, 5000}. non-trivial = at least one non-text token or a dropped tail (soup/attrs), ErrBufferExceeded reached (maxbuf)",
+			"maxbuf: every soup input of <= %d fragments and every attrs input of <= 3 fragments with SetMaxBuf(n), n in {1,2,3,4,7,16}, readers {all, 1 byte + Token() + 4-byte initial buffer, EOF alongside data + 4-byte initial buffer}; maxbuf-long: <= %d soup fragments with a 9000/20000-byte filler (x…, spaces, '-', \"<a \" repeated) inserted at every position, n in {16, 5000}. non-trivial = at least one non-text token or a dropped tail (soup/attrs), ErrBufferExceeded reached (maxbuf)",
 			depth, c39Alphabet, c39AttrOpeners, vx.Pick(c, 4, 5), c39AttrAlphabet, c39AttrTails, vx.Pick(c, 3, 4), vx.Pick(c, 1, 2)))
 		c.Assume("inputs outside the enumerated fragment languages are not executed; non-termination inside a single Next call is caught only by the shard timeout (a livelock that keeps returning tokens is caught by the token-count bound); readers that fail with errors other than io.EOF are not modelled")
 		c.Assume("'unterminated tag' is decided by an independent transcription of the WHATWG tag-name/attribute states; the clause 'Raw of all tokens + ErrorToken Raw + Buffered + unread == input' is the package's own documented passthrough guarantee (Tokenizer.Raw doc comment)")
 
 		allCtx := []string{"", "script", "title", "textarea", "plaintext"}
-		vx.Enumerate(c, "soup", vx.Opts{NoSample: false}, func(yield func(c39Case) bool) {
-			idx := make([]int, len(c39Alphabet))
-			for i := range idx {
-				idx[i] = i
-			}
-			vx.Strings(idx, 0, depth, func(s []int) bool { return yield(c39Case{Idx: s}) })
+		soupIdx := make([]int, len(c39Alphabet))
+		for i := range soupIdx {
+			soupIdx[i] = i
+		}
+		vx.Enumerate(c, "soup", vx.Opts{}, func(yield func(c39Case) bool) {
+			vx.Strings(soupIdx, 0, 3, func(s []int) bool { return yield(c39Case{Idx: s}) })
 		}, func(w *vx.W, x c39Case) {
-			if len(x.Idx) <= 3 {
-				c39CheckInput(w, c39Join(c39Alphabet, x.Idx), allCtx, true)
-			} else {
-				c39CheckInput(w, c39Join(c39Alphabet, x.Idx), allCtx[:1], false)
-			}
+			c39CheckInput(w, c39Join(c39Alphabet, x.Idx), allCtx, true)
 		})
 
 		attrIn := func(x c39Case) []byte {
@@ -606,6 +610,12 @@ func TestVerif_C39(t *testing.T) {
 			in = append(in, fillers[x.Filler]...)
 			in = append(in, c39Join(c39Alphabet, x.Idx[x.Long-1:])...)
 			c39CheckMaxBuf(w, in, x.MaxBuf)
+		})
+		// last, because it is by far the largest part
+		vx.Enumerate(c, "soup-deep", vx.Opts{}, func(yield func(c39Case) bool) {
+			vx.Strings(soupIdx, 4, depth, func(s []int) bool { return yield(c39Case{Idx: s}) })
+		}, func(w *vx.W, x c39Case) {
+			c39CheckInput(w, c39Join(c39Alphabet, x.Idx), allCtx[:1], false)
 		})
 	})
 }
